@@ -144,7 +144,7 @@ class MapObj:
 
 
 class ChanObj:
-    __slots__ = ('cap', 'items', 'closed', 'sink', 'epoch', 'name', 'sent', 'symlen', 'recvd')
+    __slots__ = ('cap', 'items', 'closed', 'sink', 'epoch', 'name', 'sent', 'symlen', 'recvd', 'timer_d')
 
     def __init__(self, cap, epoch):
         self.cap = cap
@@ -156,6 +156,7 @@ class ChanObj:
         self.sent = 0
         self.recvd = 0
         self.symlen = None   # optional symbolic number of pre-existing opaque items
+        self.timer_d = None  # channel of a time.Timer: the duration it was armed with (logged when the tick is received)
 
 
 class RangeIter:
